@@ -105,9 +105,39 @@ def _level0_gate(fn):
     raise AssertionError("level-0 gate not found")
 
 
+def _scan_locate(fn):
+    """`find_module_in_path`, statement by statement (flattened, docstring dropped): which path is
+    resolved (the search dir) and which is not (what is joined below it, and the result)."""
+    tree = ast.parse(textwrap.dedent(inspect.getsource(fn)))
+    f = tree.body[0]
+    ev = []
+
+    def walk(body):
+        for st in body:
+            if isinstance(st, ast.Expr) and isinstance(st.value, ast.Constant) and isinstance(st.value.value, str):
+                continue
+            if isinstance(st, ast.If):
+                ev.append("if " + _src(st.test))
+                walk(st.body)
+                if st.orelse:
+                    ev.append("else")
+                    walk(st.orelse)
+                ev.append("endif")
+            elif isinstance(st, ast.For):
+                ev.append("for " + _src(st.target) + " in " + _src(st.iter))
+                walk(st.body)
+                ev.append("endfor")
+            else:
+                ev.append(_src(st))
+
+    walk(f.body)
+    return ev
+
+
 def tables():
     import rattr.analyser.file as F
     import rattr.results._find_call_target as R
+    import rattr.module_locator._locate as L
     from rattr.config import Config
     import impl
 
@@ -125,4 +155,6 @@ def tables():
         f"def bfsLadder : List String := {llist(_scan_bfs(F.parse_and_analyse_imports))}",
         f"def resolveLadder : List String := {llist(_scan_resolve(R.resolve_import))}",
         f"def level0Gate : List String := {llist(gate)}",
+        "/-- `find_module_in_path`, statement by statement -/",
+        f"def locateOps : List String := {llist(_scan_locate(L.find_module_in_path))}",
     ]
